@@ -106,15 +106,14 @@ theorem after_unwrap_gone (kinds : List Kind) (sched more : List Nat) (t : Nat) 
   exact exhausted_stays inv h1 more
 
 /-- …and the token and its stored payload cease to exist: the revocation is queued (token was the client token)
-or already done by the request itself (third-party unwrap); after two steps of the expiration worker — whatever
-else ran before — entry, payload and wrapping information are deleted.  Holds for every kind of attempt except the
-third-party rewrap (`defer = noop`, see `after_unwrap_deleted_cex`). -/
-theorem after_unwrap_deleted_partial (kinds : List Kind) (sched : List Nat) (t : Nat) (l : Bool) (r : Res) (k : Kind)
-    (ht : (run sched (wrapInit kinds)).pcs[t]? = some (.done (some l) r))
-    (hk : (run sched (wrapInit kinds)).kinds[t]? = some k) (hno : (scriptOf k).defer ≠ .noop) :
+or already done by the request itself (third-party unwrap / rewrap); after two steps of the expiration worker —
+whatever else ran before — entry, payload and wrapping information are deleted.  For every kind of attempt. -/
+theorem after_unwrap_deleted (kinds : List Kind) (sched : List Nat) (t : Nat) (l : Bool) (r : Res)
+    (ht : (run sched (wrapInit kinds)).pcs[t]? = some (.done (some l) r)) :
     let s' := run (sched ++ [kinds.length, kinds.length]) (wrapInit kinds)
     s'.sh.gone = true ∧ s'.sh.payload = false ∧ s'.sh.info = false := by
   have inv := wrap_inv kinds sched
+  obtain ⟨k, hk⟩ := kind_of_thread true 1 kinds sched t _ ht
   have hl := inv.loc t _ k ht hk
   have hlt : l = true := by
     have := hl.one rfl
@@ -122,7 +121,7 @@ theorem after_unwrap_deleted_partial (kinds : List Kind) (sched : List Nat) (t :
     | true => rfl
     | false => simp [pcU] at this
   subst hlt
-  have hq := hl.lastq r rfl hno
+  have hq := hl.lastq r rfl
   have hlen : (run sched (wrapInit kinds)).pcs.length = kinds.length := by
     rw [run_length]; simp [initW]
   have hg : (run (sched ++ [kinds.length, kinds.length]) (wrapInit kinds)).sh.gone = true := by
@@ -130,25 +129,8 @@ theorem after_unwrap_deleted_partial (kinds : List Kind) (sched : List Nat) (t :
   have inv' := wrap_inv kinds (sched ++ [kinds.length, kinds.length])
   exact ⟨hg, inv'.goneD hg⟩
 
-/-- Full statement: after ANY attempt that went through the use step has returned, two worker steps later the
-token entry, the payload and the wrapping information are deleted. -/
-def after_unwrap_deleted_full : Prop :=
-  ∀ (kinds : List Kind) (sched : List Nat) (t : Nat) (l : Bool) (r : Res),
-    (run sched (wrapInit kinds)).pcs[t]? = some (.done (some l) r) →
-    let s' := run (sched ++ [kinds.length, kinds.length]) (wrapInit kinds)
-    s'.sh.gone = true ∧ s'.sh.payload = false ∧ s'.sh.info = false
-
-/-- The unchanged code violates it (finding): a third-party rewrap defers `revokeOrphan` with the token string of
-the request instead of the entry's ID, which revokes nothing; the old wrapping token stays in storage with the
-pending marker, together with its payload, until its TTL expires. -/
-theorem after_unwrap_deleted_cex : ¬ after_unwrap_deleted_full := by
-  intro h
-  have := h [.rewrap3] [0, 0, 0, 0, 0, 0, 0, 0, 0, 0] 0 true .rewrapped (by decide)
-  revert this
-  decide
-
-/-- A third-party unwrap that went through the use step has, when it returns, itself deleted the entry, the
-payload and the wrapping information. -/
+/-- A third-party unwrap / rewrap that went through the use step has, when it returns, itself deleted the entry,
+the payload and the wrapping information. -/
 theorem third_party_unwrap_deletes (kinds : List Kind) (sched : List Nat) (t : Nat) (l : Bool) (r : Res) (k : Kind)
     (ht : (run sched (wrapInit kinds)).pcs[t]? = some (.done (some l) r))
     (hk : (run sched (wrapInit kinds)).kinds[t]? = some k) (h3 : (scriptOf k).defer = .sync) :
@@ -184,5 +166,10 @@ example : let s := run [1, 1, 1, 1, 1, 1, 1, 1, 1, 1, 1, 1, 1, 1, 1, 0, 0] (wrap
 /-- the hypotheses of `unwrap_exactly_once` are met by a concrete race of three attempts and a lookup -/
 example : let kinds := [Kind.unwrap1, .unwrap3, .cubby, .lookup3]
     (∀ k ∈ kinds, seeking k = true ∨ (scriptOf k).uses = false) ∧ (∃ k ∈ kinds, seeking k = true) := by decide
+
+/-- non-vacuity for the third-party rewrap: it transfers the payload and deletes the old token and its payload -/
+example : let s := run [0, 0, 0, 0, 0, 0, 0, 0, 0, 0, 0, 0, 0, 0, 0, 0] (wrapInit [.rewrap3])
+    s.pcs[0]? = some (.done (some true) .rewrapped) ∧ s.sh.gone = true ∧ s.sh.payload = false ∧ s.sh.info = false := by
+  decide
 
 end C18
